@@ -63,16 +63,16 @@ def run(ctx):
         dist["traces_logged"] += t.get("logged") or 0
         if t.get("crashed") or u.get("crashed"):
             dist["crashed"] += 1
-        term = "ECase %s %s %s %s %s %s %s %d %s" % (
+        term = "ECase %s %s %s %s %s %s %s %d %s %d" % (
             common.coq_str(fault), common.coq_list(common.coq_str(e) for e in sorted(set(extra))),
             common.coq_list(common.coq_str(e) for e in sorted(set(missing))),
             common.coq_bool(u["results"] == t["results"] and u["results"] is not None),
             common.coq_bool(u["stdout"] == t["stdout"] and u["stdout"] is not None),
             common.coq_bool(u["exception"] == t["exception"]), common.coq_bool(t["profiler_restored"]),
-            t["flushes"], common.coq_bool(bool(t.get("flush_exception"))))
+            t["flushes"], common.coq_bool(bool(t.get("flush_exception"))), t.get("residue") or 0)
         terms.append(term)
         cases.append({"seed": seed, "fault": fault, "extra": sorted(set(extra)), "missing": sorted(set(missing)),
-                      "traced": {k: t.get(k) for k in ("exception", "flush_exception", "profiler_restored", "flushes", "logged", "stderr")},
+                      "traced": {k: t.get(k) for k in ("exception", "flush_exception", "profiler_restored", "flushes", "logged", "residue", "stderr")},
                       "untraced_exception": u["exception"], "term": term})
     outs = common.run_coq_shards(ctx.work, "c03", "From MT Require Import EffectsCases.\n", terms, "ecase",
                                  "bad verdict_effects 0 cases")
